@@ -11,7 +11,7 @@ CHECKS = {
    "DESIGN.md §6 C12, §4.3"),
  "C14": ("model_checking",
    "bounded-exhaustive enumeration of segment words × IFS settings against a reference splitter",
-   "Every word of up to 6 (quick) / 7 (thorough) segments over the 8 segment kinds of the statement, under 13 IFS settings (incl. letters, characters from the upper half of ASCII, and the white-space-only values newline and blank, for which white space outside IFS is a segment kind of its own) and 3 realisations, 9 segment kinds incl. an unknown tilde-prefix, words of 1-40 repetitions of 9 units, (literal parts, parameter expansions, single quotes), is expanded by the real Expand and compared with a splitter written from the statement; additionally histories on ONE environment: every sequence of ≤ 3 (thorough 4) IFS settings with 5 probe words expanded after each change, and every pair (IFS1, probe) then (IFS2, word ≤ 3 characters over {a space , : é tab}). Complete within those bounds.",
+   "Every word of up to 6 (quick) / 7 (thorough) segments over the 8 segment kinds of the statement, under 13 IFS settings (incl. letters, characters from the upper half of ASCII, and the white-space-only values newline and blank, for which white space outside IFS is a segment kind of its own) and 3 realisations, 9-10 segment kinds incl. an unknown tilde-prefix and an unquoted expansion that produces nothing, words of 1-40 repetitions of 9 units, (literal parts, parameter expansions, single quotes), is expanded by the real Expand and compared with a splitter written from the statement; additionally histories on ONE environment: every sequence of ≤ 3 (thorough 4) IFS settings with 5 probe words expanded after each change, and every pair (IFS1, probe) then (IFS2, word ≤ 3 characters over {a space , : é tab}). Complete within those bounds.",
    "Trusts the reference splitter (c14Ref); words are built as AST values with NoGlob set; longer words and other IFS values are outside the bound.",
    "DESIGN.md §6 C14, §4.2"),
  "C11": ("model_checking",
@@ -26,7 +26,7 @@ CHECKS = {
    "DESIGN.md §6 C13, §4.2"),
  "C15": ("model_checking",
    "bounded-exhaustive enumeration of strings × quoting styles × modes × environments with an intrinsic oracle",
-   "Every string of up to 4 (quick) / 5 (thorough) characters over 20 shell-significant characters (incl. / . CR TAB) is written under single, double, backslash and mixed quoting, parsed by the real parser and expanded under all 6 ExpModes in 5 adversarial environments (IFS from the alphabet, HOME, positional parameters, a scratch working directory holding files named like the strings); the result must be exactly one field equal to the string, in Pattern mode a pattern whose elements are all literal and which, given to pattern.Match, matches the string itself and none of its neighbours (also for every string of ≤ 5 characters over three families of regexp metacharacters); every string of ≤ 3 characters also as the quoted word of ${u:-…}, ${u-…} and ${a:+…} outside double quotes.",
+   "Every string of up to 4 (quick) / 5 (thorough) characters over 21 shell-significant characters (incl. / . : CR TAB) is written under single, double, backslash and mixed quoting, parsed by the real parser and expanded under all 6 ExpModes in 5 adversarial environments (IFS from the alphabet, HOME, positional parameters, a scratch working directory holding files named like the strings); the result must be exactly one field equal to the string, in Pattern mode a pattern whose elements are all literal and which, given to pattern.Match, matches the string itself and none of its neighbours (also for every string of ≤ 5 characters over three families of regexp metacharacters); every string of ≤ 3 characters also as the quoted word of ${u:-…}, ${u-…} and ${a:+…} outside double quotes.",
    "Backslash-newline excluded from the backslash style; Pattern mode judged by the pattern model of C12; longer strings / other characters outside the bound.",
    "DESIGN.md §6 C15"),
  "C16": ("model_checking",
@@ -46,7 +46,7 @@ CHECKS = {
    "DESIGN.md §6 C02, §4.1"),
  "C03": ("model_checking",
    "bounded-exhaustive enumeration of symbol strings and single-symbol mutations, classified by a reference grammar model",
-   "Every string of the C02 alphabets/bounds that the grammar model rejects (≈ 2·10^7 in the quick tier) must be rejected by the real parser with a parser.Error that carries the caller's name and a position inside the consumed text at the start of a token or construct; plus all single-symbol deletions, insertions, duplications and adjacent swaps of generated well-formed programs, every word of the word menu placed at the name positions (for variable, function name) where the model rejects it, the insertion of a comment together with its newline at every position, all pairs of 8 here-document symbols (quoted/unquoted delimiter, well-formed/ill-formed body) in 6 arrangements, 8 closed substitutions with ill-formed content at 9 positions, and every arithmetic text of ≤ 5 (6) characters over {1 ( ) + blank} with more ')' than '(' as $((…)) and ((…)) in 11 host sentences.",
+   "Every string of the C02 alphabets/bounds that the grammar model rejects (≈ 2·10^7 in the quick tier) must be rejected by the real parser with a parser.Error that carries the caller's name and a position inside the consumed text at the start of a token or construct; plus all single-symbol deletions, insertions, duplications and adjacent swaps of generated well-formed programs, every word of the word menu placed at the name positions (for variable, function name) where the model rejects it, the insertion of a comment together with its newline at every position, all pairs of 8 here-document symbols (quoted/unquoted delimiter, well-formed/ill-formed body) in 6 arrangements, 8 closed substitutions with ill-formed content and 3 unterminated here-documents (the body only holds look-alikes of the delimiter line: blank-indented under <<-, tab-indented under <<, followed by a blank) at 9 positions, and every arithmetic text of ≤ 5 (6) characters over {1 ( ) + blank} with more ')' than '(' as $((…)) and ((…)) in 11 host sentences.",
    "Trusts gram.go for valid/invalid; which of several possible errors is reported is not compared; strings whose quotes pair up across symbols are skipped.",
    "DESIGN.md §6 C03, §4.1"),
  "C04": ("model_checking",
@@ -56,12 +56,12 @@ CHECKS = {
    "DESIGN.md §6 C04"),
  "C06": ("model_checking",
    "stateless model checking of the implementation: controlled scheduler + DFS over all interleavings of the hooked lexer/parser goroutine operations",
-   "go.sh is built with -tags verif; every synchronisation operation between the parser and its lexer goroutines (token hand-off including both outcomes of an ambiguous select, cancel, here-document queue, nested lexer join, error slots, return of the call) is a point owned by a cooperative scheduler. For every ParseCommands input of ≤ 3 (quick) / 4 (thorough) pieces over a 15-piece alphabet (incl. a numbered here-document whose delimiter never comes), 15 longer inputs (preemption bound ≤ 2), the generator's lists of leaf commands and default-filled compounds with each single-symbol deletion (preemption bound ≤ 1), every input of ≤ 2 (thorough 3) pieces plus 14 nested-substitution inputs with the reader failing from / once at every rune index, and every Eval input of ≤ 4 / 5 tokens over a 12-token alphabet plus 23 longer ones (faults met while the lexer is about to reject a later character, short-circuit operands), ALL schedules are enumerated (≈ 7·10^4 executions, 8·10^5 transitions in the quick tier): one result per input, no deadlock, nothing alive or active after the return. Schedules are replayed for determinism; a free-running pass (GOMAXPROCS 1/2/16) must only produce explored results, and the same bodies run under the race detector, which also runs 484 ordered pairs of calls concurrently (results equal to the solo results; shared package-level state shows as a race).",
+   "go.sh is built with -tags verif; every synchronisation operation between the parser and its lexer goroutines (token hand-off including both outcomes of an ambiguous select, cancel, here-document queue, nested lexer join, error slots, return of the call) is a point owned by a cooperative scheduler. For every ParseCommands input of ≤ 3 (quick) / 4 (thorough) pieces over a 15-piece alphabet (incl. a numbered here-document whose delimiter never comes), 19 longer inputs (preemption bound ≤ 2; incl. two here-documents with the input ending after the first delimiter line), the generator's lists of leaf commands and default-filled compounds with each single-symbol deletion (preemption bound ≤ 1), every input of ≤ 2 (thorough 3) pieces plus 14 nested-substitution inputs with the reader failing from / once at every rune index, and every Eval input of ≤ 4 / 5 tokens over a 12-token alphabet plus 23 longer ones (faults met while the lexer is about to reject a later character, short-circuit operands), ALL schedules are enumerated (≈ 7·10^4 executions, 8·10^5 transitions in the quick tier): one result per input, no deadlock, nothing alive or active after the return. Schedules are replayed for determinism; a free-running pass (GOMAXPROCS 1/2/16) must only produce explored results, and the same bodies run under the race detector, which also runs 484 ordered pairs of calls concurrently (results equal to the solo results; shared package-level state shows as a race).",
    "The controller owns the hooked operations only: unhooked unsynchronised accesses and memory-model effects are seen by the supplementary -race pass alone, synchronisation added next to a hooked operation by the delay runs (every parse and reader-fault body once per hooked point, free-running with the goroutine that reaches the point held back until the others can go no further: the observation must be one the exploration produced, and a delivered fault must not end in a nil error); executions per input are capped (20 000 / 200 000).",
    "DESIGN.md §6 C06, §2 E2, §3"),
  "C07": ("model_checking",
    "explicit-state search over command streams (state = reader offset, transition = one ParseCommands call)",
-   "Every stream that concatenates ≤ 3 (quick) / 4 (thorough) commands from an 83-entry menu (single-line, multi-line compound, here-documents in every position incl. <<- and quoted delimiters, trailing comments, line continuations, blank lines, multi-line quotes/substitutions), each also with the last command lacking its final newline, and every generator derivation (D0, D1, DH, DC, word menu; three layouts incl. a newline after every inner ';') as first command followed by each of 5 continuations, is read by successive ParseCommands calls from a strings.Reader and a custom RuneScanner; after every call the offset must be the (constructed) end of that command and the result must equal the result of parsing that command's text alone; blank lines give empty results.",
+   "Every stream that concatenates ≤ 3 (quick) / 4 (thorough) commands from an 85-entry menu (single-line, multi-line compound, here-documents in every position incl. <<- and quoted delimiters, trailing comments, line continuations, blank lines, multi-line quotes/substitutions), each also with the last command lacking its final newline, and every generator derivation (D0, D1, DH, DC, word menu; three layouts incl. a newline after every inner ';') as first command followed by each of 5 continuations, is read by successive ParseCommands calls from a strings.Reader and a custom RuneScanner; after every call the offset must be the (constructed) end of that command and the result must equal the result of parsing that command's text alone; blank lines give empty results.",
    "Command boundaries are known by construction; comment-only lines are excluded (pinned by go.sh's own tests); streams beyond the menu are not explored.",
    "DESIGN.md §6 C07, §2 E3"),
  "C08": ("model_checking",
